@@ -493,7 +493,7 @@ func main() {
 			verifyNoNative(f, name)
 			astutil.AddImport(fset, f, vsPath)
 			// keep possibly orphaned imports used
-			var keep []ast.Decl
+			keep := []ast.Decl{dummy("vsched", "Options")} // a file without any rewritten construct still imports the scheduler
 			for _, imp := range f.Imports {
 				path := strings.Trim(imp.Path.Value, `"`)
 				switch path {
